@@ -35,7 +35,8 @@ pub enum Error {
 /// If the source lost lines (a torn write that got repaired) the cache can be
 /// ahead. When only its last bucket reaches beyond the source that bucket is
 /// kept and the next lines pushed to the source, which it already accounts for,
-/// are skipped. If it is further ahead it is rebuild from scratch.
+/// are skipped. If it is further ahead, or that bucket is newer than the last
+/// line left in the source, it is rebuild from scratch.
 #[instrument(skip(source, downsampled, corruption_callback))]
 pub(super) fn add_missing_data<R>(
     source: &mut Data,
@@ -50,7 +51,12 @@ where
     let in_source = source.len();
     let mut accounted_for = downsampled.data.len().saturating_mul(bucket_size);
 
-    if accounted_for >= in_source.saturating_add(bucket_size) {
+    // A last bucket that reaches beyond the source was made from lines that are
+    // gone. It can only be kept if its time is not ahead of the source, every
+    // bucket added later must be newer than it.
+    let last_bucket_too_new =
+        accounted_for > in_source && downsampled.data.last_time() > source.last_time();
+    if accounted_for >= in_source.saturating_add(bucket_size) || last_bucket_too_new {
         warn!("Repairing downsampled data cache, it is ahead of the source");
         downsampled
             .data
